@@ -493,3 +493,36 @@ def c10_accumulators(tier, rng):
             dis += 1
     return {"obligations": obl, "discharged": dis, "violations": viol, "cases": obl, "exhaustive": True,
             "bound": "all %d attributes bound by DatasetProcessor.__init__" % len(init_attrs), "samples": [{"attribute": "all_read_groups", "rebound": True}]}
+
+
+# ---- the per-chromosome files of an experiment are found again under whatever name the experiment has ---------------------------------------------
+@finite("C10.per_chromosome_names", ["C10", "C12"], note="the real file_utils.merge_file_list against the real SampleData: for 14 experiment names (incl. "
+        "names that occur inside an output suffix or the output path: s, gene, tsv, gtf, model, out, a.b, x_y) x every output path of SampleData "
+        "(and the count-table names derived from them) x chromosome ids (chr1, 1, s, chr_1.2): the name the merge looks for is the name the "
+        "per-chromosome worker writes, i.e. the same attribute of SampleData(prefix + '_' + chromosome)")
+def c10_per_chromosome_names(tier, rng):
+    ids = native.repo_import("src/input_data_storage.py")
+    fu = native.repo_import("src/file_utils.py")
+    obl = dis = 0
+    viol = []
+    chrs = ["chr1", "1", "s", "chr_1.2"]
+    for prefix in ["OUT", "s", "gene", "tsv", "gtf", "model", "out", "a.b", "x_y", "reads", "transcript", "e", "_", "S"]:
+        for out_root in ("/data/out", "/data/results_s/model"):
+            out_dir = out_root + "/" + prefix
+            whole = ids.SampleData([["f.bam"]], prefix, out_dir, {}, None)
+            parts = [ids.SampleData([["f.bam"]], "%s_%s" % (prefix, c), out_dir, {}, None) for c in chrs]
+            for attr, value in sorted(vars(whole).items()):
+                if not attr.startswith("out_") or not isinstance(value, str) or attr == "out_dir":
+                    continue
+                for suffix in ("", "_counts.tsv", "_counts_linear.tsv", "_tpm.tsv", ".gtf", ".stats"):
+                    obl += 1
+                    got = fu.merge_file_list(value + suffix, prefix, chrs)
+                    want = [getattr(p, attr) + suffix for p in parts]
+                    if got == want:
+                        dis += 1
+                    elif len(viol) < 3:
+                        viol.append({"obligation": "C10.per_chromosome_names.%s.%s" % (prefix, attr),
+                                     "inputs": {"file": value + suffix, "prefix": prefix, "chromosomes": chrs},
+                                     "observed": got, "required": want})
+    return {"obligations": obl, "discharged": dis, "violations": viol, "cases": obl, "exhaustive": True,
+            "bound": "14 experiment names x 2 output roots x output paths of SampleData x 6 suffixes", "samples": [{"prefix": "s", "file": "/data/out/s/s.read_assignments.tsv"}]}
